@@ -102,7 +102,7 @@ func addrIP(a Addr, variant int, rng *rand.Rand, memo map[string]net.IP) net.IP 
 	return ip
 }
 
-func ruleText(r Rule, variant int, rng *rand.Rand, memo map[string]net.IP) string {
+func ruleText(r Rule, variant, av int, rng *rand.Rand, memo map[string]net.IP) string {
 	switch r.K {
 	case "star":
 		return "*"
@@ -119,7 +119,7 @@ func ruleText(r Rule, variant int, rng *rand.Rand, memo map[string]net.IP) strin
 		}
 		return n
 	case "ip":
-		ip := addrIP(r.A, variant, rng, memo)
+		ip := addrIP(r.A, av, rng, memo)
 		if Blocks[r.A.C].V6 {
 			return v6Text(ip, variant)
 		}
@@ -145,15 +145,17 @@ func ruleText(r Rule, variant int, rng *rand.Rand, memo map[string]net.IP) strin
 var otherSchemes = []string{"ftp", "file", "ws", "gopher", "wss", "javascript"}
 var redirectCodes = []int{302, 307, 301, 308, 303}
 
-// Concretise builds the variant-th concrete instance of a row.
-func Concretise(row *Row, variant int, rng *rand.Rand) (*Conc, error) {
+// Concretise builds the variant-th concrete instance of a row.  salt (the row's index) spreads the choice of inside
+// addresses over the table; everything else depends on the variant only.
+func Concretise(row *Row, variant, salt int, rng *rand.Rand) (*Conc, error) {
 	memo := map[string]net.IP{}
+	av := variant + 3*salt // address variant
 	c := &Conc{Variant: variant, Allow: []string{}, Deny: []string{}}
 	for _, r := range row.Pol.Allow {
-		c.Allow = append(c.Allow, ruleText(r, variant, rng, memo))
+		c.Allow = append(c.Allow, ruleText(r, variant, av, rng, memo))
 	}
 	for _, r := range row.Pol.Deny {
-		c.Deny = append(c.Deny, ruleText(r, variant, rng, memo))
+		c.Deny = append(c.Deny, ruleText(r, variant, av, rng, memo))
 	}
 	var sb strings.Builder
 	sb.WriteString("defaults {\n  egress {\n")
@@ -184,7 +186,7 @@ func Concretise(row *Row, variant int, rng *rand.Rand) (*Conc, error) {
 			host = NameText(h.U.H.N, variant)
 			lookup = host
 		case "lit":
-			ip := addrIP(h.U.H.A, variant, rng, memo)
+			ip := addrIP(h.U.H.A, av, rng, memo)
 			switch {
 			case Blocks[h.U.H.A.C].V6:
 				host = v6Text(ip, variant)
@@ -196,7 +198,7 @@ func Concretise(row *Row, variant int, rng *rand.Rand) (*Conc, error) {
 				host = v4Text(ip)
 			}
 		case "odd":
-			ip := addrIP(h.U.H.A, variant, rng, memo)
+			ip := addrIP(h.U.H.A, av, rng, memo)
 			host = OddV4(ip, variant+i)
 			lookup = strings.ToLower(host)
 		case "empty":
@@ -267,7 +269,7 @@ func Concretise(row *Row, variant int, rng *rand.Rand) (*Conc, error) {
 				ch.Err = true
 			}
 			for _, a := range h.Ans.As {
-				ip := addrIP(a, variant, rng, memo)
+				ip := addrIP(a, av, rng, memo)
 				form := ip
 				if !Blocks[a.C].V6 {
 					if a.M {
